@@ -53,6 +53,7 @@ def r_polarity(repo, rep, R='R17.1'):
     paths = SymExec(b).run()
     ok = len(paths) == 1
     listed_value = init_value = None
+    index_form = False
     if ok:
         st = paths[0][0]
         ret = st.ret
@@ -66,6 +67,9 @@ def r_polarity(repo, rep, R='R17.1'):
         if ret is not None and calls and ((ret[0] == 'unop' and ret[1] in ('~', 'not') and ret[2] == calls[0]) or (
                 ret[0] == 'call' and ret[1][0] == 'attr' and ret[1][2] in ('logical_not', 'invert') and ret[2] == (calls[0],))):
             ret, flipped = calls[0], True           # the complement of the vector that was filled
+        index_form = False
+        if ret is not None and calls and ret[0] == 'call' and ret[1][0] == 'attr' and ret[1][2] == 'flatnonzero' and ret[2] == (calls[0],) and not ret[3]:
+            ret, index_form = calls[0], True        # the positions of the True entries: the same selection, spelt as column numbers
         if len(calls) == 1 and len(sets) == 1 and sets[0][1] == calls[0] and sets[0][2] == N(idx) and ret == calls[0]:
             init_value = {'ones': True, 'zeros': False}.get(calls[0][1][2])
             v = sets[0][3]
@@ -106,7 +110,7 @@ def r_polarity(repo, rep, R='R17.1'):
         if negated:
             col = col[2]
         is_mask = col is not None and col[0] == 'sub' and col[1][0] == 'dictcomp' and col[1][2][0] == 'call' and (col[1][2][1] in (N('_binarize'), N(MASK)) or col[1][2][1][:2] == ('func', MASK))
-        flattened_unlisted = is_mask and (mask_true_means_unlisted != negated)
+        flattened_unlisted = is_mask and (mask_true_means_unlisted != negated) and not (index_form and negated)
         rep.check(flattened_unlisted and val == N('large_negative_value'), R, wf, 'filters:polarity',
                   'the cells set to large_negative_value are those of the categories NOT listed for the word',
                   'the store %s = %s flattens the listed categories (or is not driven by the mask)' % (show(idx_t)[:80], show(val)))
